@@ -11,7 +11,9 @@ Deep(d) == {RenderState(f[1], <<f[2], f[3], f[4], f[5]>>, <<f[6], f[7]>>, f[8], 
               f \in RandomSubset(NRand, (1..Len(V.hosts)) \X (1..Len(V.segs)) \X (1..Len(V.segs)) \X (1..Len(V.segs)) \X (1..Len(V.segs))
                                         \X (1..Len(V.items)) \X (1..Len(V.items)) \X (1..Len(V.frags)))}
           \cup {RenderState(h, sg, it, fr, FALSE) : h \in {1}, sg \in SeqsUpTo(1..Len(V.segs), 1), it \in ItemSeqs, fr \in 1..Len(V.frags)}
+\* every path of MaxSegs + 1 segments on the first host, bare (truncated routes such as '/document/d/e', '/x/photos/a.1')
+OneDeeper(d) == {RenderState(1, sg, <<>>, 1, sl) : sg \in {t \in SeqsUpTo(1..Len(V.segs), MaxSegs + 1) : Len(t) = MaxSegs + 1}, sl \in BOOLEAN}
 GenInit == host = 1 /\ segs = <<>> /\ items = <<>> /\ frag = 1 /\ slash = FALSE
-           /\ JsonSerialize(IOEnv.GEN_OUT, [urls |-> SetToSeq(AllStates(0) \cup Deep(0)), foreign |-> D19.foreign])
+           /\ JsonSerialize(IOEnv.GEN_OUT, [urls |-> SetToSeq(AllStates(0) \cup Deep(0) \cup OneDeeper(0)), foreign |-> D19.foreign])
 GenNext == FALSE /\ UNCHANGED vars
 =============================================================================
